@@ -52,7 +52,7 @@ def entries(ctx, flavours=None, fams=BUILDERS, which=None):
     kq = {K.q: K for K in ctx.kernels()}
     out = []
     for q, b in sorted(F.bodies.items()):
-        if b['kind'] == 'Closure' or q in kq or b['impl_trait']:
+        if b['kind'] == 'Closure' or q in kq or b['impl_trait'] or q in getattr(F, 'absorbed', ()):
             continue
         fam = b['impl_self_q'].split('::')[-1]
         if fam not in fams or '::node::algo::' not in b['impl_self_q']:
@@ -367,4 +367,221 @@ def result_map(ctx, flavours, fams=('Bfs', 'Dfs', 'Pfs'), which=None):
                     if not term_mentions(rt, lambda z: isinstance(z, tuple) and z and z[0] == 'call' and z[1] == t['res']):
                         why.append('kernel result is not returned')
             out.append(Obl('RESMAP', b['q'], F.where(b, bi), 'result of %s mapped to the API result' % K.name, not why, '; '.join(why) if why else 'ok'))
+    return out
+
+
+# ---------------------------------------------------------------------------------------------------------------------
+# ENTRY-PASS: an entry point answers by running a kernel.  A path from the start of an entry to its return that avoids
+# every kernel call is a shortcut; it is accepted only when it is taken on the true edge of a predicate of self.root that
+# implies that every adjacency list the entry's kernels would walk is empty, and what it returns is what the kernels
+# would have produced for such a root (None / false / no edges / [root]).
+ALL_ROLES = frozenset(('OUT', 'IN'))
+
+
+def emptiness(ctx, q, _depth=0):
+    """roles of the adjacency lists of the receiver that are certainly empty when bool fn q(receiver, ..) returns true"""
+    from .rules_edge import model
+    from .effects import footprint
+    F = ctx.F
+    key = ('emptiness', q)
+    if key in ctx.cache:
+        return ctx.cache[key]
+    ctx.cache[key] = frozenset()
+    b = F.bodies.get(q)
+    if b is None or _depth > 4 or F.types[b['locals'][0]].get('s') != 'bool':
+        return frozenset()
+    M = model(ctx, F.flavour(b))
+    pv, cfg = F.prov(b), F.cfg(b)
+    P1 = ('param', 1)
+
+    def imp(term):
+        term = strip_payload(term)
+        if term == ('const', 'false'):
+            return ALL_ROLES
+        if isinstance(term, tuple) and term and term[0] == 'binop' and term[1] == 'Eq':
+            a, c = term[2]
+            if strip_payload(a) in (('const', '0'), ('const', '0_usize')):
+                a, c = c, a
+            a = strip_payload(a)
+            if strip_payload(c) in (('const', '0'), ('const', '0_usize')) and isinstance(a, tuple) and a and a[0] == 'call' and a[1] in F.bodies \
+                    and a[1].split('::')[-1].startswith('len') and term_mentions(a, lambda z: z == P1):
+                fp = M.reads(a[1]) if a[1] in M.methods else footprint(F, M, F.bodies[a[1]])
+                return frozenset(M.role(f) for f in fp)
+            return frozenset()
+        if isinstance(term, tuple) and term and term[0] == 'call' and term[1] in F.bodies and term[2] and strip_payload(term[2][0]) == P1 and len(term[2]) == 1:
+            return emptiness(ctx, term[1], _depth + 1)
+        return frozenset()
+    # tests: boolean locals that are branched on
+    tests = []
+    for l in range(len(b['locals'])):
+        if F.types[b['locals'][l]].get('s') != 'bool' or l == 0:
+            continue
+        for term, bi in pv.def_terms(l):
+            tgt = b['blocks'][bi]['term'].get('target', bi) if any(k == 'call' and d is b['blocks'][bi]['term'] for k, d, _ in pv.defs.get(l, [])) else bi
+            te, fe = cfg.bool_edges(l, tgt if tgt >= 0 else bi)
+            if te is not None:
+                tests.append((te, imp(term)))
+    res = None
+    for term, bi in pv.def_terms(0):
+        got = set(imp(term))
+        for te, im in tests:
+            if cfg.edge_dominates(te[0], te[1], bi):
+                got |= im
+        res = got if res is None else (res & got)
+    res = frozenset(res or ())
+    ctx.cache[key] = res
+    return res
+
+
+def entry_pass(ctx, flavours, fams=BUILDERS, which=None):
+    F = ctx.F
+    out = []
+    for b, sites in entries(ctx, flavours, fams, which):
+        cfg, pv = F.cfg(b), F.prov(b)
+        kb = {bi for bi, _, _ in sites}
+        # blocks that can still reach a kernel call
+        can = set(kb)
+        changed = True
+        while changed:
+            changed = False
+            for i in cfg.reach:
+                if i not in can and any(s in can for s in cfg.succ[i]):
+                    can.add(i)
+                    changed = True
+        r0 = cfg.reachable_from(0, avoiding=kb)
+        esc = []
+        for s_ in sorted(r0 & can):
+            if s_ in kb:
+                continue
+            for t_ in cfg.succ[s_]:
+                if t_ not in can and any(b['blocks'][x]['term']['k'] == 'return' for x in cfg.reachable_from(t_)):
+                    esc.append((s_, t_))
+        if 0 not in can:
+            continue
+        need = set()
+        for _, _, K in sites:
+            c = getattr(K, 'iter_ctor', None)
+            need |= {'OUT'} if c == 'iter_out' else ({'IN'} if c == 'iter_in' else {'OUT', 'IN'})
+        ROOT = ('f', ('param', 1), _root_field(F, b))
+        why = []
+        sc_blocks = set()
+        for s_, t_ in esc:
+            sw = b['blocks'][s_]['term']
+            w = None
+            if sw['k'] != 'switch':
+                w = 'leaves through a %s terminator' % sw['k']
+            else:
+                dt = strip_payload(pv.of_operand(sw['op']))
+                neg = False
+                while isinstance(dt, tuple) and dt and dt[0] == 'unop':
+                    dt = strip_payload(dt[2])
+                    neg = not neg
+                if not (isinstance(dt, tuple) and dt and dt[0] == 'call' and dt[1] in F.bodies and len(dt[2]) == 1 and strip_payload(dt[2][0]) == ROOT):
+                    w = 'is decided by %s, not by a predicate of self.root' % pretty(dt)[:80]
+                else:
+                    is_true_edge = (t_ == sw['otherwise'] and t_ not in [x for v, x in sw['targets'] if v == 0]) != neg
+                    em = emptiness(ctx, dt[1])
+                    if not is_true_edge:
+                        w = 'is taken when %s is false' % dt[1].split('::')[-1]
+                    elif not need <= em:
+                        w = '%s only implies that the %s list(s) are empty; the kernels of this entry walk %s' % (dt[1].split('::')[-1], '+'.join(sorted(em)) or 'no', '+'.join(sorted(need)))
+            zone = cfg.reachable_from(t_)
+            if w is None:
+                # value returned on the shortcut
+                rt = F.types[b['locals'][0]]
+                for term, bi in pv.def_terms(0):
+                    if bi not in zone:
+                        continue
+                    term_s = strip_payload(term)
+                    if rt.get('p') == 'std::option::Option':
+                        good = isinstance(term_s, tuple) and term_s[0] == 'aggr' and term_s[1].endswith('Option::None')
+                    elif rt.get('s') == 'bool':
+                        good = term_s == ('const', 'false')
+                    elif rt.get('p') == 'std::vec::Vec':
+                        nodes = F.ty_has_adt(b['locals'][0], r'::node::Node$') and not F.ty_has_adt(b['locals'][0], r'::node::Edge$')
+                        mentions_self = term_mentions(term, lambda z: z == ('param', 1))
+                        if nodes:
+                            # the list literal [root]: one element (array aggregate of `vec![..]` or a push), which is self.root
+                            after_k = set()
+                            for k_ in kb:
+                                after_k |= cfg.reachable_from(k_)
+                            zx = [x for x in zone if x not in after_k]
+                            elems, other = [], []
+                            for x in zx:
+                                for st in b['blocks'][x]['stmts']:
+                                    if st['k'] == 'assign' and st['rv']['k'] == 'aggr' and st['rv']['ak'].startswith('array'):
+                                        elems += [strip_payload(pv.of_operand(o)) for o in st['rv']['ops']]
+                                tt = b['blocks'][x]['term']
+                                if tt['k'] == 'call':
+                                    if callee_name(tt).endswith('Vec::push'):
+                                        elems.append(strip_payload(pv.of_operand(tt['args'][1])))
+                                    elif tt.get('local') and tt.get('res') in F.bodies and not tt['res'].endswith('::clone'):
+                                        other.append(tt['res'])
+                            good = elems == [ROOT] and not other
+                        else:
+                            good = not mentions_self and not any(c[1] in F.bodies for c in term_calls(term))
+                    else:
+                        good = False
+                    if not good:
+                        w = 'returns %s' % pretty(term)[:80]
+            if w is None:
+                sc_blocks |= zone
+            else:
+                why.append('a path that reaches no kernel leaves at %s and %s' % (F.where(b, s_), w))
+        b['shortcut_blocks'] = sorted(sc_blocks)
+        out.append(Obl('ENTRY-PASS', b['q'], b['span'], 'every answer comes from a kernel run (or from a shortcut that is sound for every arm)', not why,
+                       '; '.join(why) if why else ('%d kernel call sites; %d sound shortcut(s)' % (len(sites), len(esc)))))
+    return out
+
+
+# ---------------------------------------------------------------------------------------------------------------------
+# CONF: a search object is configuration (root, target, method, transposition, priority/ordering).  Kernels and entry
+# points read it; the only writes are the callback dispatcher's own state (`method`, which holds the user's FnMut) and
+# `target := key(root)` at the start of a cycle entry.  Anything else makes one search depend on the previous one.
+def conf_ro(ctx, flavours, fams=BUILDERS, which=None):
+    F = ctx.F
+    out = []
+    seen = set()
+    todo = []
+    for b, sites in entries(ctx, flavours, fams, which):
+        todo.append((b, 'entry'))
+        for _, _, K in sites:
+            todo.append((K.b, 'kernel'))
+    for b, kind in todo:
+        if b['q'] in seen:
+            continue
+        seen.add(b['q'])
+        pv = F.prov(b)
+        cyc = kind == 'entry' and _is_cycle_entry(F, b, None)
+        why = []
+
+        def self_field(pl):
+            """name of the field of *self that place pl starts in, or None"""
+            if not pl['p']:
+                return None
+            base = strip_payload(pv.of_local(pl['l'])) if pl['l'] != 1 else ('param', 1)
+            if base != ('param', 1):
+                return None
+            for p_ in pl['p']:
+                if p_ == '*':
+                    continue
+                m = re.match(r'^\.(\d+)(?::(\w+))?', p_)
+                return (m.group(2) or m.group(1)) if m else None
+            return None
+        for bi, bb in enumerate(b['blocks']):
+            if bb['cleanup'] or bi not in F.cfg(b).reach:
+                continue
+            for st in bb['stmts']:
+                if st['k'] != 'assign' or st.get('exp', '').startswith('desugar:') and False:
+                    continue
+                f = self_field(st['dst'])
+                if f is not None and f != 'method' and not (cyc and f == 'target'):
+                    why.append('writes self.%s at %s' % (f, st['sp']))
+                rv = st['rv']
+                if rv['k'] == 'ref' and rv.get('mut'):
+                    f = self_field(rv['pl'])
+                    if f is not None and f != 'method':
+                        why.append('takes &mut self.%s at %s' % (f, st['sp']))
+        out.append(Obl('CONF', b['q'], b['span'], 'the %s does not modify the search configuration (only `method`%s)' % (kind, ', and `target` in a cycle entry' if cyc else ''), not why,
+                       '; '.join(sorted(set(why))) if why else 'read-only'))
     return out
